@@ -290,7 +290,10 @@ def history(ctx, g, ms, buf, n, backend='file'):
                             hd['If-Modified-Since'] = resp.headers['Last-modified']
                         held[t] = hd
                 elif resp.status_int not in (200, 304):
-                    e['status'] = 404 if resp.status_int in (400, 404) else resp.status_int
+                    # refused (the error code and document are C18's matter: the RESTful WMTS route answers an
+                    # address like /-1/0/2.png with 500 'invalid request', the KVP form with 400)
+                    e['status'] = 404
+                    e['http'] = resp.status_int
             elif p < 0.65:
                 r = rng.choice(list(g['res']) + [g['res'][0] * 8, 30, 50])
                 w, h = rng.randint(1, 6), rng.randint(1, 6)
